@@ -191,11 +191,14 @@ static void unpackBits(const uint8_t *input, const size_t count,
 size_t varintFloatEncode(uint8_t *output, const double *values,
                          const size_t count,
                          const varintFloatPrecision precision,
-                         const varintFloatEncodingMode mode) {
+                         const varintFloatEncodingMode requestedMode) {
     if (count == 0) {
         return 0;
     }
 
+    /* The mode actually written to the header (and read back by the decoder)
+     * can differ from the requested one, see COMMON_EXPONENT below */
+    varintFloatEncodingMode mode = requestedMode;
     uint8_t *p = output;
 
     /* Write header */
@@ -262,6 +265,29 @@ size_t varintFloatEncode(uint8_t *output, const double *values,
     /* Write signs bitmap */
     packBits(signs, count, 1, p);
     p += (count + 7) / 8;
+
+    /* COMMON_EXPONENT stores each exponent as an 8-bit offset from the
+     * smallest one. When the exponents of the array are spread further apart
+     * than that, the offsets would be truncated and values would decode with
+     * the wrong magnitude, so encode such arrays as INDEPENDENT instead. */
+    if (mode == VARINT_FLOAT_MODE_COMMON_EXPONENT) {
+        int16_t lo = INT16_MAX;
+        int16_t hi = INT16_MIN;
+        for (size_t i = 0; i < count; i++) {
+            if (!special_flags[i]) {
+                if (exponents[i] < lo) {
+                    lo = exponents[i];
+                }
+                if (exponents[i] > hi) {
+                    hi = exponents[i];
+                }
+            }
+        }
+        if (hi > lo && (int)hi - (int)lo > UINT8_MAX) {
+            mode = VARINT_FLOAT_MODE_INDEPENDENT;
+            output[3] = (uint8_t)mode;
+        }
+    }
 
     /* Write exponents based on mode */
     if (mode == VARINT_FLOAT_MODE_INDEPENDENT) {
